@@ -94,7 +94,7 @@ Lemma decode_segment_length : forall scale start rest s rest',
   decode_segment scale start rest = Ok (Some (s, rest')) ->
   (length rest' < length rest)%nat.
 Proof.
-  intros scale start rest s rest' H. unfold decode_segment in H.
+  intros scale start rest s rest' H. unfold decode_segment in H. rewrite ?shorter_length in H.
   destruct rest as [|header r0]; try discriminate.
   destruct (scale =? 0) eqn:Es; try discriminate.
   match type of H with (if ?b then _ else _) = _ => destruct b eqn:En end; try discriminate.
@@ -110,7 +110,7 @@ Qed.
 Lemma decode_segment_not_oob : forall scale start rest site off,
   decode_segment scale start rest <> OOB site off.
 Proof.
-  intros scale start rest site off H. unfold decode_segment in H.
+  intros scale start rest site off H. unfold decode_segment in H. rewrite ?shorter_length in H.
   destruct rest as [|header r0]; try discriminate.
   destruct (scale =? 0) eqn:Es; try discriminate.
   match type of H with (if ?b then _ else _) = _ => destruct b eqn:En end; try discriminate.
@@ -124,7 +124,7 @@ Qed.
 Lemma decode_segment_not_fuel : forall scale start rest,
   decode_segment scale start rest <> Fuel.
 Proof.
-  intros scale start rest H. unfold decode_segment in H.
+  intros scale start rest H. unfold decode_segment in H. rewrite ?shorter_length in H.
   destruct rest as [|header r0]; try discriminate.
   destruct (scale =? 0) eqn:Es; try discriminate.
   match type of H with (if ?b then _ else _) = _ => destruct b eqn:En end; try discriminate.
